@@ -71,6 +71,17 @@ reg('C04', True,
     'propagation, admissibility of heuristics, BIT*/LBTRRT incumbent idioms (listed).',
     'clang 14 AST/CFG of 17 units; the objective\'s virtual cost functions are opaque',
     'finite-domain abstract evaluation (strict weak order + spec table) + call-site argument agreement + guard shape')
-for _p in ['C01', 'C02', 'C03', 'C06', 'C07', 'C08', 'C09', 'C10', 'C13', 'C14', 'C15', 'C16',
+reg('C13', True,
+    'Decides for all histories the per-operation necessary conditions: neighbour probes are exactly -1/+1 in every '
+    'dimension with the coordinate restored; every neighbour-counter write re-establishes border <=> count < limit '
+    '(finite domain, invariant assumed before); in GridB the heap operations per neighbour match the flag transition '
+    '(stay => update in the same heap, flip => remove from the old and insert into the new) and add/update/remove select '
+    'the heap by the flag; createCell/remove are duals over the same neighbour set, the neighbour pass runs on every '
+    'non-null path and before the hash erase; lookups/add/remove key on the coordinate; the component traversal marks, '
+    'expands, drops duplicates and starts components only from unmarked cells. Not decided: hash quality, ordering '
+    'functor behaviour, the global invariants as an inductive proof.',
+    'clang 14 AST/CFG of the explicit instantiations Grid<int>, GridN<int>, GridB<int>; BinaryHeap is covered by C11',
+    'finite-domain abstract evaluation of the per-neighbour code + constant tracking + must-pass-through over clang CFG')
+for _p in ['C01', 'C02', 'C03', 'C06', 'C07', 'C08', 'C09', 'C10', 'C14', 'C15', 'C16',
            'C17', 'C20']:
     reg(_p, False, '', '', '', PENDING)
